@@ -711,6 +711,8 @@ void sim_set_sockbuf(int fd, size_t cap) { FdEnt *e = ent(fd); if (e && e->s) { 
 static int do_wait(int kind, int64_t timeout_ns, int epfd, const std::function<int()> &query) {
 	G.steps++;
 	if (hooks.wait_enter) hooks.wait_enter(kind, timeout_ns, epfd);
+	// once a violation is recorded the oracles go quiet; make sure the loop under test still ends
+	if (G.violated && hooks.stall) hooks.stall();
 	if (G.steps > wait_cap) {
 		if (!G.capped) { G.capped = true; sim::tr("cap wait calls"); if (hooks.capped) hooks.capped(); }
 	}
